@@ -406,17 +406,17 @@ def check_c03(sim, res):
     # the same relations on the logs
     N = sim.N
     for k in range(N):
-        holders = {}
+        holders = {}  # (kind, resource ID) -> task IDs: worker and facility IDs live in separate name spaces
         for ti, task in enumerate(sim.h.tasks):
             for w in task.allocated_worker_id_record[k] or []:
-                holders.setdefault(w, []).append(task.ID)
+                holders.setdefault(("worker", w), []).append(task.ID)
             for f in task.allocated_facility_id_record[k] or []:
-                holders.setdefault(f, []).append(task.ID)
+                holders.setdefault(("facility", f), []).append(task.ID)
         for kind, objs, isabs in (("worker", sim.h.workers, sim.worker_absent), ("facility", sim.h.facs, sim.fac_absent)):
             for i, r in enumerate(objs):
                 assigned = list(r.assigned_task_id_record[k] or [])
-                if sorted(assigned) != sorted(holders.get(r.ID, [])):
-                    res.fail("C03.log_two_way", "%s %s log[%d] assigned %s, task logs say %s" % (kind, r.ID, k, assigned, holders.get(r.ID, [])), sig=kind)
+                if sorted(assigned) != sorted(holders.get((kind, r.ID), [])):
+                    res.fail("C03.log_two_way", "%s %s log[%d] assigned %s, task logs say %s" % (kind, r.ID, k, assigned, holders.get((kind, r.ID), [])), sig=kind)
                 if len(assigned) > 1:
                     res.fail("C03.log_exclusive", "%s %s log[%d] assigned %s" % (kind, r.ID, k, assigned), sig=kind)
                 want = bool(assigned) and not isabs(i, k)
@@ -502,11 +502,41 @@ def check_c04(sim, res):
 # ================================================================================================
 # C06
 # ================================================================================================
-def acceptable_pairs(sim, alloc, ti, s, candidate_workers):
+def placeable_workplaces(sim, upd, alloc, ti):
+    """Workplaces into which the unplaced single-task component of READY facility task ti certainly fitted during
+    the allocation pass of this step (flat product): the task lists the workplace, the workplace has skill for the
+    task, and the component fits even if everything that was there at the start of the pass *and* everything that
+    is there at its end were there at once (a component moves at most once per step, so this bounds every moment)."""
+    spec = sim.spec
+    t = sim.tasks[ti]
+    size = spec["comps"][t["comp"]]["space"]
+    sizes = {S.cid(i): c["space"] for i, c in enumerate(spec["comps"])}
+    out = []
+    for k, wp in enumerate(spec["wps"]):
+        if ti not in wp["targets"] or ti in wp.get("notask", ()):
+            continue
+        w_id = S.wpid(k)
+        there = set(upd["wps"][w_id]) | set(alloc["wps"][w_id])
+        room = wp["cap"] - sum(sizes[c] for c in there)
+        if not room >= size - 1e-9:
+            continue
+        skill = 0.0
+        for fi, f in enumerate(spec["facs"]):
+            v = f["skills"].get(str(ti))
+            if f["wp"] == k and v is not None and v > 1e-10:
+                skill += v
+        if skill > 1e-9:
+            out.append(w_id)
+    return out
+
+
+def acceptable_pairs(sim, alloc, ti, s, candidate_workers, upd=None):
     """(worker, FREE facility) pairs that facility task ti could still accept at the end of allocation of step s.
 
     Only meaningful for a task that is the single task of its component in a flat product (the component
     is then placed by this task alone). candidate_workers: worker IDs to consider as available.
+    upd: the start-of-pass snapshot; when given, a READY task whose component is unplaced is also considered, with
+    the facilities of every workplace the component certainly fitted into (placeable_workplaces).
     """
     spec = sim.spec
     t = sim.tasks[ti]
@@ -518,11 +548,17 @@ def acceptable_pairs(sim, alloc, ti, s, candidate_workers):
         return []
     placed = alloc["comps"][S.cid(t["comp"])][1]
     if placed is None:
-        return []
+        if upd is None or tt[T_STATE] != S.READY or aw or af or spec["comps"][t["comp"]].get("extra_tasks"):
+            return []
+        if upd["comps"][S.cid(t["comp"])][1] is not None or upd["tasks"][sim.tids[ti]][T_STATE] != S.READY:
+            return []
+        places = placeable_workplaces(sim, upd, alloc, ti)
+    else:
+        places = [placed]
     out = []
     for fi, f in enumerate(spec["facs"]):
         f_id = sim.fids[fi]
-        if S.wpid(f["wp"]) != placed:
+        if S.wpid(f["wp"]) not in places:
             continue
         fst, fasg = alloc["facs"][f_id]
         if fst != S.R_FREE or fasg or not sim.fac_eligible(fi, ti):
@@ -610,11 +646,16 @@ def check_c06(sim, res):
                         sig="ready" if tt[T_STATE] == S.READY else "working",
                     )
             elif flat_product and t.get("comp") is not None and len(comp_tasks[t["comp"]]) == 1:
-                for w, f_id in acceptable_pairs(sim, alloc, ti, s, free_w):
+                unplaced = alloc["comps"][S.cid(t["comp"])][1] is None
+                for w, f_id in acceptable_pairs(sim, alloc, ti, s, free_w, upd=upd):
                     res.fail(
                         "C06.idle_pair",
-                        "worker %s and facility %s are FREE after allocation at step %d although task %s (holding %s/%s) could accept the pair" % (w, f_id, s, t_id, list(aw), list(af)),
+                        "worker %s and facility %s are FREE after allocation at step %d although task %s (holding %s/%s%s) could accept the pair"
+                        % (w, f_id, s, t_id, list(aw), list(af), ", component unplaced although it fits the facility's workplace" if unplaced else ""),
+                        sig="unplaced" if unplaced else "",
                     )
+                if unplaced and tt[T_STATE] == S.READY:
+                    res.cls("facility_task_waited_unplaced")
     res.cls("ready_task_waited", waited)
     res.cls("worker_joined_working_task", joined)
     res.cls("facilities", bool(spec["facs"]))
